@@ -58,6 +58,8 @@ class EngineP(EngineBase):
         step = max(1, len(self.corpus_short) // 70)
         self.corpus_short = self.corpus_short[::step][:70]
         self.short_texts = sorted({x for _, p in self.corpus_short + self.compounds for x in p} | set(corpus.MICRO))
+        # anything whose trees are already in the on-disk cache costs nothing in memo-parse runs
+        self.corpus_cached = sorted((n, p) for n, p in beh.items() if all(x in self.tc.data for x in p))
 
     # ------------------------------------------------------------------ reference (sequential, harness-owned)
     def ref_parse(self, text):
@@ -103,11 +105,15 @@ class EngineP(EngineBase):
         uid = 0
         for i in range(n):
             kind = ch.weighted([("micro", 6), ("corpus", 4), ("compound", p_compound), ("broken", p_broken),
+                                ("cached", 5 if mode == "memoparse" and self.corpus_cached else 0),
                                 ("fault", p_fault), ("zero", 1 if ch.chance(1, 8, "z") else 0), ("multi", 1)], "kind")
             if kind == "micro":
                 name, parts = f"m{i}", [ch.choice(corpus.MICRO, "micro")]
             elif kind == "corpus":
                 name, parts = ch.choice(self.corpus_short, "corpus")
+                parts = list(parts)
+            elif kind == "cached":
+                name, parts = ch.choice(self.corpus_cached, "cached")
                 parts = list(parts)
             elif kind == "compound":
                 name, parts = ch.choice(self.compounds, "compound") if self.compounds else ("c", ["{}", "{}"])
@@ -199,6 +205,10 @@ class EngineP(EngineBase):
                         ParseSeam.parse_memo[(gk, okey, part)] = ("ok", r[1])
         if mode == "real":
             ParseSeam.lark_objects.clear()
+        else:
+            # the declared stub: one Lark object per (grammar, options), built before the pool forks
+            FaultyLark(self.grammar, start="fbody", parser="earley")
+            ParseSeam.constructed = 0
         insn_behavior = {t["name"]: list(t["parts"]) for t in tasks}
         simpool.SimPool.sim = (ch, log, stats)
         saved = self._install()
@@ -219,8 +229,8 @@ class EngineP(EngineBase):
         # ---------------- oracle
         V = out.violations
 
-        def viol(cls, key="", **detail):
-            V.append(Violation("C18", "seq-ref", cls, key, detail))
+        def viol(cls, sigkey="", **detail):
+            V.append(Violation("C18", "seq-ref", cls, sigkey, detail))
 
         if raised is not None:
             if isinstance(raised, (simpool.SimHang,)):
@@ -381,10 +391,66 @@ class EngineP(EngineBase):
         }
 
     def post_batch(self, agg, base_seed):
-        """Model validation: a few workloads through the *real* multiprocessing.Pool."""
+        """Model validation: a few workloads through the *real* multiprocessing.Pool, in a child
+        process with a wall limit (the real pool is allowed to hang; the simulation is not)."""
+        import json
+        import signal
+        import time
         k = 3 if self.tier == "quick" else 12
+        r, w = os.pipe()
+        pid = os.fork()
+        if pid == 0:
+            try:
+                os.setsid()
+                os.close(r)
+                res = self._validate_real(base_seed, k)
+                os.write(w, json.dumps(res).encode())
+            except BaseException as e:  # noqa: BLE001
+                try:
+                    os.write(w, json.dumps({"error": repr(e)[:300]}).encode())
+                except OSError:
+                    pass
+            finally:
+                os._exit(0)
+        os.close(w)
+        deadline = time.time() + (120 if self.tier == "quick" else 400)
+        done = False
+        while time.time() < deadline:
+            p, _ = os.waitpid(pid, os.WNOHANG)
+            if p:
+                done = True
+                break
+            time.sleep(0.1)
+        if not done:
+            try:
+                os.killpg(pid, signal.SIGKILL)
+            except OSError:
+                pass
+            os.waitpid(pid, 0)
+            os.close(r)
+            return {"traces_validated_against_impl": 0, "real_pool_validation": "timed out (real pool hung); not counted"}
+        data = b""
+        while True:
+            c = os.read(r, 1 << 16)
+            if not c:
+                break
+            data += c
+        os.close(r)
+        try:
+            res = json.loads(data.decode())
+        except ValueError:
+            return {"traces_validated_against_impl": 0, "real_pool_validation": "child produced no result"}
+        if "error" in res:
+            return {"traces_validated_against_impl": 0, "real_pool_validation": "error: " + res["error"]}
+        for wl in res["bad"]:
+            # the shipped pool itself disagrees: report through the normal path (replayed on SimPool)
+            v = Violation("C18", "seq-ref", "real-pool-disagrees", "", {"workload": self.describe(wl)})
+            agg.violations.append({"index": 10**6, "seed": 0, "violation": v.to_json(), "workload": wl, "tape": []})
+        return {"traces_validated_against_impl": res["ok"]}
+
+    def _validate_real(self, base_seed, k):
         self.worker_init(0)
-        ok = 0
+        ok, bad = 0, []
         for i in range(k):
             ch = Chooser(seed=int(stable_hash(base_seed, "validate", i)[:12], 16))
             wl = self.generate(ch, 10**6 + i)
@@ -407,12 +473,11 @@ class EngineP(EngineBase):
                     good &= e.exception is None and [trees.canon(a) for a in e.asts] == val
                 else:
                     good &= e.exception is not None and e.exception.name == val and e.asts == []
-            if not good:
-                # the shipped pool itself disagrees: report through the normal path (replayed on SimPool)
-                v = Violation("C18", "seq-ref", "real-pool-disagrees", "", {"workload": self.describe(wl)})
-                agg.violations.append({"index": 10**6 + i, "seed": 0, "violation": v.to_json(), "workload": wl, "tape": []})
-            ok += 1
-        return {"traces_validated_against_impl": ok}
+            if good:
+                ok += 1
+            else:
+                bad.append(wl)
+        return {"ok": ok, "bad": bad}
 
 
 ENGINE = EngineP
